@@ -20,19 +20,8 @@
 extern PROD_T G_px, G_py;
 extern ITV_T *G_x1s, *G_x2s, *G_y1s, *G_y2s;     /* interval storage of the four components (heap objects of the harness) */
 extern int G_psatX0, G_psatY0, G_sat_x1_0, G_sat_x2_0, G_sat_y1_0, G_sat_y2_0;
-#define SEQ(b) ((const ITV_T *)BOX_BEGIN(b))
-/* a well-formed box wherever its storage lives */
-SPEC int box_wf_any(const BOX_T *b) {
-  if (BOX_END(b) != BOX_BEGIN(b) + BOX_D || BOX_CAP(b) < BOX_END(b)) return 0;
-  if ((BOX_FLAGS(b) & ~(BST_EMPTY_UP_TO_DATE | BST_EMPTY)) != 0) return 0;
-  if (b_marked_empty(b)) return 1;
-  if (!ALLK(WF(&SEQ(b)[0]), WF(&SEQ(b)[1]))) return 0;
-  if (b_marked_nonempty(b) && !ALLK(!is_empty_set(&SEQ(b)[0]), !is_empty_set(&SEQ(b)[1]))) return 0;
-  return 1;
-}
 SPEC int prod_wf_any(const PROD_T *p) { return box_wf_any(P_D1(p)) && box_wf_any(P_D2(p)) && P_REDUCED(p) <= 1; }
 SPEC int prod_wf_entry(const PROD_T *p, const ITV_T *s1, const ITV_T *s2) { return box_wf(P_D1(p), s1) && box_wf(P_D2(p), s2) && P_REDUCED(p) <= 1; }
-SPEC int bsat(const BOX_T *b) { return box_sat(b, SEQ(b)); }
 SPEC int prod_sat(const PROD_T *p) { return bsat(P_D1(p)) && bsat(P_D2(p)); }
 /* the intersection is empty as a set: a component is, or some coordinate's two intervals do not meet */
 SPEC int prod_empty(const PROD_T *p) {
